@@ -165,6 +165,7 @@ def job_nowrap(job, res):
             'square': (lambda: fo.square(x), lambda a, b, c, m: [a * a, b * b, c * c]),
             'ToPower(3)': (lambda: fo.ToPower(3)(x), lambda a, b, c, m: [a * a * a, b * b * b, c * c * c]),
             'CenterOn(mean=integer array of the trace dtype)': (lambda: fo.CenterOn(mean=mean_int)(x), lambda a, b, c, m: [a - m[0], b - m[1], c - m[2]]),
+            'StandardizeOn(mean=integer array of the trace dtype, std=2)': (lambda: fo.StandardizeOn(mean=mean_int, std=2)(x), lambda a, b, c, m: [(a - m[0]) / 2, (b - m[1]) / 2, (c - m[2]) / 2]),
             'CenteredProduct(mean=integer array, frame_1=[0,1])': (lambda: ho.CenteredProduct(frame_1=[0, 1], mean=mean_int)(x),
                                                                    lambda a, b, c, m: [(a - m[0]) * (a - m[0]), (a - m[0]) * (b - m[1]), (b - m[1]) * (b - m[1])]),
         }
@@ -379,6 +380,8 @@ def replay(w):
                         out, exp = P.ToPower(3)(x), [a ** 3, b ** 3, c ** 3]
                     elif name.startswith('CenterOn'):
                         out, exp = P.CenterOn(mean=mean)(x), [a - m0, b - m1, c - m2]
+                    elif name.startswith('StandardizeOn'):
+                        out, exp = P.StandardizeOn(mean=mean, std=2)(x), [(a - m0) / 2, (b - m1) / 2, (c - m2) / 2]
                     else:
                         out, exp = P.high_order.CenteredProduct(frame_1=[0, 1], mean=mean)(x), [(a - m0) ** 2, (a - m0) * (b - m1), (b - m1) ** 2]
                 except Exception as e_:
